@@ -177,6 +177,10 @@ def build_arg(ty, w):
     if isinstance(w, dict) and "__namespace__" in w:
         import types as _t
         return _t.SimpleNamespace(**w["__namespace__"])
+    if isinstance(ty, dict) and "@attrs" in ty:
+        import types as _t
+        o = _t.SimpleNamespace(**{k: build_arg(t, w["@attrs"][k]) for k, t in ty["@attrs"].items()})
+        return o
     if isinstance(ty, dict):
         return {k: build_arg(t, w[k]) for k, t in ty.items()}
     if isinstance(ty, (list, tuple)):
@@ -239,6 +243,8 @@ def run_contract(rt, cc, func, args_by_name, call=None):
         out["raised"] = type(e).__name__
         out["raise_msg"] = str(e)[:300]
         result = None
+    if type(result).__name__ == "Margins" and hasattr(result, "astuple"):
+        result = ("Margins",) + tuple(result.astuple())
     if type(result).__name__ == "Window" and hasattr(result, "col_off"):
         result = ("Window", result.col_off, result.row_off, result.width, result.height)
     out["result"] = summarize(result)
@@ -352,6 +358,10 @@ def default_sample(cc, rng):
         ty = cc.types[p]
         if isinstance(ty, str) and ty.startswith("func:"):
             args[p] = resolve(cc.options.get("replay_" + p, ty[5:]))
+        elif isinstance(ty, dict) and "@attrs" in ty:
+            import types as _t
+            args[p] = _t.SimpleNamespace(**{k: (int(rng.integers(0, 12)) if t == "int" else float(rng.integers(1, 9)) / 2.0)
+                                            for k, t in ty["@attrs"].items()})
         elif isinstance(ty, (dict, list, tuple)):
             def gen(t):
                 if isinstance(t, dict):
